@@ -109,6 +109,14 @@ def corr(ctx):
             e = rng.randrange(0, 4 * size)
             add("fpow", (P, a, e), lambda: (F(a) ** e).value, "algebra:FiniteBifieldElement.__pow__")
         melems = range(size) if m <= (8 if ctx.thorough else 5) else [rng.randrange(size) for _ in range((12 if m <= 10 else (2 if m <= 12 else (1 if ctx.thorough and m <= 14 else 0))))]
+        if m >= 6:
+            # elements of proper subfields (short conjugacy classes): 0, 1 and alpha^((2^m-1)/(2^d-1)) for every d | m, d < m
+            sub = [0, 1]
+            al_ = F.primitive_element()
+            for d_ in range(1, m):
+                if m % d_ == 0:
+                    sub.append(int((al_ ** ((2 ** m - 1) // (2 ** d_ - 1))).value)); sub.append(int((al_ ** (3 * ((2 ** m - 1) // (2 ** d_ - 1)))).value))
+            melems = list(melems) + [a_ for a_ in dict.fromkeys(sub) if a_ not in list(melems)]
         for a in melems:
             ops.append(Op("fconj %d %d %d" % (P, m, a), ",".join(str(c.value) for c in A.FiniteBifieldElement(F, a).conjugates()),
                           nontrivial=a > 1, info={"site": "algebra:FiniteBifieldElement.conjugates", "config": {"m": m, "a": a}}))
